@@ -60,6 +60,21 @@ MUTANTS += [
     ("collapse_wrong_prefix", IP, ("def _collapse(", 'startswith("<__")'), 'startswith("<___")', "IterativeParser._collapse"),
 ]
 
+CN = "src/fandango/constraints/"
+MUTANTS += [
+    ("fitness_off_by_one_total", CN + "fitness.py", ("class ConstraintFitness", "            return self.solved / self.total\n"), "            return self.solved / (self.total + 1)\n", "ConstraintFitness.fitness"),
+    ("conjunction_success_any", CN + "conjunction.py", "        overall = all(fitness.success for fitness in fitness_values)", "        overall = any(fitness.success for fitness in fitness_values)", "ConjunctionConstraint.fitness"),
+    ("conjunction_lazy_continues_on_success", CN + "conjunction.py", "                if not fitness.success:\n                    break", "                if fitness.success:\n                    break", "ConjunctionConstraint.fitness"),
+    ("conjunction_caches_under_tree_only", CN + "conjunction.py", "        tree_hash = self.get_hash(tree, scope, local_variables)", "        tree_hash = self.get_hash(tree)", "ConjunctionConstraint.fitness"),
+    ("get_hash_without_scope", CN + "base.py", "                tuple((scope or {}).items()),\n", "", "GeneticBase.get_hash"),
+    ("tree_value_to_bytes_latin1", "src/fandango/language/tree_value.py", ("def to_bytes(", "encoding=str_to_bytes_encoding"), 'encoding="latin-1"', "TreeValue.to_bytes"),
+    ("add_child_no_invalidate", "src/fandango/language/tree.py", ("def add_child(", "        self.invalidate_hash()\n"), "        pass\n", "DerivationTree.add_child"),
+    ("set_children_keeps_old_parent", "src/fandango/language/tree.py", ("def set_children(", "            child._parent = self\n"), "            pass\n", "DerivationTree.set_children"),
+    ("parse_forest_yields_cached_object", "src/fandango/language/grammar/parser/parser.py", ("def parse_forest(", "deepcopy("), "(lambda x: x)(", "Parser.parse_forest"),
+    ("star_printer_ungrouped", N + "repetition.py", ("class Star", "        return self._operand_as_spec() + \"*\""), "        return self.node.format_as_spec() + \"*\"", "Star.format_as_spec"),
+    ("buffer_clear_wrong_side", "src/fandango/io/__init__.py", ("def clear_by_party(", "idx <= to_idx"), "idx < to_idx", "FandangoIO.clear_by_party"),
+]
+
 # harmless edits: must NOT fail an obligation (verified or undecided are both acceptable, an alarm is not)
 EQUIVALENT = [
     ("eq_terminal_named_leaf", N + "terminal.py", "                parent.add_child(DerivationTree(self.symbol))\n", "                leaf = DerivationTree(self.symbol)\n                parent.add_child(leaf)\n", "TerminalNode.fuzz"),
@@ -94,13 +109,13 @@ DRIVER = r'''
 import sys
 sys.path.insert(0, %r)
 from pyvc import run
-run.CONTRACT_MODULES = ["contracts.fuzz", "contracts.search"]
+run.CONTRACT_MODULES = ["contracts.evaluation", "contracts.constraints", "contracts.parser_cache", "contracts.tree_value", "contracts.tree", "contracts.printer", "contracts.io_buffer", "contracts.fuzz", "contracts.search"]
 sys.exit(run.main(["--only", %r]))
 '''
 
 
 def main():
-    scratch = f"/tmp/mutants_fuzz_{os.getpid()}"
+    scratch = f"/tmp/mutants_{os.getpid()}"
     results = []
     for name, rel, old, new, only in MUTANTS + EQUIVALENT:
         shutil.rmtree(scratch, ignore_errors=True)
